@@ -34,6 +34,8 @@ def SmallOp : Op → Prop
   | .readToEnd => True
   | .readExact _ => True
   | .writeAll b => b.length < 2^62
+  | .writeV bufs => bufs.flatten.length < 2^62
+  | .readV _ => True
 
 theorem R_init (al : Nat) : R al ACur.init SCur.init :=
   ⟨rfl, rfl, fun i => by simp [ACur.init, SCur.init], Nat.le_refl _, ⟨0, by simp [ACur.init]⟩⟩
@@ -70,13 +72,12 @@ theorem padded_length (buf : B) (pos : Nat) :
   · omega
 
 /-- `write`: same result, related states. -/
-theorem write_refines (al : Nat) (hal : 0 < al) (a : ACur) (s : SCur) (b : B)
-    (hR : R al a s) (hg : Guard s) (ho : b.length < 2^62) :
+theorem write_refines_gen (al : Nat) (hal : 0 < al) (a : ACur) (s : SCur) (b : B)
+    (hR : R al a s) (hle : s.pos + b.length ≤ usizeMax) :
     (a.write al b).2 = (s.write b).2 ∧ (a.write al b).2 = .wrote b.length ∧ R al (a.write al b).1 (s.write b).1 := by
   obtain ⟨hpos, hlen, hdata, hcap, hunits⟩ := hR
-  obtain ⟨hg1, hg2⟩ := hg
   have hmin : min b.length (usizeMax - a.pos) = b.length := by
-    unfold usizeMax; rw [hpos]; omega
+    rw [hpos]; omega
   simp only [ACur.write, SCur.write, hmin]
   have h1 : ¬ (b.length ≠ 0 ∧ b.length = 0) := by omega
   rw [if_neg h1, if_neg (Nat.lt_irrefl _)]
@@ -115,6 +116,31 @@ theorem write_refines (al : Nat) (hal : 0 < al) (a : ACur) (s : SCur) (b : B)
     · exact ⟨ceilDiv (a.pos + b.length) al, Nat.mul_comm _ _⟩
     · exact hunits
 
+theorem write_refines (al : Nat) (hal : 0 < al) (a : ACur) (s : SCur) (b : B)
+    (hR : R al a s) (hg : Guard s) (ho : b.length < 2^62) :
+    (a.write al b).2 = (s.write b).2 ∧ (a.write al b).2 = .wrote b.length ∧ R al (a.write al b).1 (s.write b).1 :=
+  write_refines_gen al hal a s b hR (by have := hg.1; unfold usizeMax; omega)
+
+/-- the loop of `write_vectored`: same count, related states, as long as the end stays below `usize::MAX` -/
+theorem writeMany_refines (al : Nat) (hal : 0 < al) : ∀ (bufs : List B) (a : ACur) (s : SCur) (acc : Nat),
+    R al a s → s.pos + bufs.flatten.length ≤ usizeMax →
+    (ACur.writeMany al a bufs acc).2 = (SCur.writeMany s bufs acc).2
+      ∧ R al (ACur.writeMany al a bufs acc).1 (SCur.writeMany s bufs acc).1
+  | [], a, s, acc, hR, _ => ⟨rfl, hR⟩
+  | b :: bs, a, s, acc, hR, hle => by
+      simp only [List.flatten_cons, List.length_append] at hle
+      obtain ⟨h1, h2, h3⟩ := write_refines_gen al hal a s b hR (by omega)
+      have hs : (s.write b).2 = .wrote b.length := by rw [← h1, h2]
+      have hp : (s.write b).1.pos = s.pos + b.length := rfl
+      simp only [ACur.writeMany, SCur.writeMany]
+      generalize hwa : a.write al b = wa at h1 h2 h3
+      generalize hws : s.write b = ws at h1 hs h3 hp
+      obtain ⟨a', oa⟩ := wa
+      obtain ⟨s', os⟩ := ws
+      simp only at h2 hs h3 hp
+      subst h2; subst hs
+      exact writeMany_refines al hal bs a' s' _ h3 (by omega)
+
 /-- `read`: same bytes, related states. -/
 theorem read_refines (al : Nat) (a : ACur) (s : SCur) (n : Nat) (hR : R al a s) :
     (a.read n).2 = (s.read n).2 ∧ R al (a.read n).1 (s.read n).1 := by
@@ -142,6 +168,27 @@ theorem read_refines (al : Nat) (a : ACur) (s : SCur) (n : Nat) (hR : R al a s) 
       have : s.pos + i < s.buf.length := by omega
       rw [List.getElem?_eq_getElem this]; simp
     · rw [List.getElem?_eq_none (by simp; omega), List.getElem?_eq_none (by simp; omega)]
+
+/-- the loop of `read_vectored`: same bytes, related states -/
+theorem readMany_refines (al : Nat) : ∀ (ns : List Nat) (a : ACur) (s : SCur) (acc : B),
+    R al a s →
+    (ACur.readMany a ns acc).2 = (SCur.readMany s ns acc).2 ∧ R al (ACur.readMany a ns acc).1 (SCur.readMany s ns acc).1
+  | [], a, s, acc, hR => ⟨rfl, hR⟩
+  | n :: ns, a, s, acc, hR => by
+      obtain ⟨h1, h3⟩ := read_refines al a s n hR
+      have hs : ∃ b, (s.read n).2 = .bytes b := ⟨_, rfl⟩
+      obtain ⟨b, hb⟩ := hs
+      simp only [ACur.readMany, SCur.readMany]
+      generalize hra : a.read n = ra at h1 h3
+      generalize hrs : s.read n = rs at h1 hb h3
+      obtain ⟨a', oa⟩ := ra
+      obtain ⟨s', os⟩ := rs
+      simp only at h1 hb h3
+      subst hb; subst h1
+      simp only
+      split
+      · exact ⟨rfl, h3⟩
+      · exact readMany_refines al ns a' s' _ h3
 
 /-- **One step**: same output, related states. -/
 theorem step_refines (al : Nat) (hal : 0 < al) (a : ACur) (s : SCur) (op : Op)
@@ -193,6 +240,18 @@ theorem step_refines (al : Nat) (hal : 0 < al) (a : ACur) (s : SCur) (op : Op)
     simp only at h2 h3
     subst h2
     exact ⟨rfl, h3⟩
+  | writeV bufs =>
+    simp only [SmallOp] at ho
+    obtain ⟨h1, h2, h3⟩ := write_refines al hal a s [] hR0 hg (by simp)
+    have hp : (s.write []).1.pos = s.pos := by simp [SCur.write]
+    simp only [ACur.step, SCur.step]
+    generalize hw : a.write al [] = w at h2 h3
+    obtain ⟨a', o⟩ := w
+    simp only at h2 h3
+    subst h2
+    simp only [List.length_nil]
+    exact writeMany_refines al hal bufs a' _ 0 h3 (by rw [hp]; have := hg.1; unfold usizeMax; omega)
+  | readV ns => exact readMany_refines al ns a s [] hR0
 
 /-- the guard holds at every state the specification goes through -/
 def GuardAlong (s : SCur) : List Op → Prop
